@@ -108,6 +108,29 @@ def typed_ok(term, x, v=None):
     return None
 
 
+def _lit_member(vals, v):
+    """the documented rule for Literal: v is listed -- an equal value of the same type (1.0 and True are not Literal[1])"""
+    return any(type(v) is type(l) and v == l for l in vals)
+
+
+def literal_expectation(term, value):
+    """verdict the literal rule gives for the shapes of gen.literal_boundary_cases (None: another shape)"""
+    k = term[0]
+    if k == 'literal':
+        return _lit_member(term[1], value)
+    if k == 'seq' and term[1] == 'list' and term[2][0] == 'literal' and type(value) is list:
+        return all(_lit_member(term[2][1], x) for x in value)
+    if k == 'dict' and term[1] == ('scalar', 'str') and term[2][0] == 'literal' and type(value) is dict and all(type(x) is str for x in value):
+        return all(_lit_member(term[2][1], x) for x in value.values())
+    if k == 'union' and len(term[1]) == 2 and term[1][0][0] == 'literal' and term[1][1] == ('scalar', 'str'):
+        return _lit_member(term[1][0][1], value) or type(value) is str
+    if k == 'class' and str(term[1].get('name', '')).startswith('Lit') and type(value) is dict and set(value) == {'v'}:
+        f = [f for f in term[1]['fields'] if f['name'] == 'v']
+        if f and f[0]['ty'][0] == 'literal':
+            return _lit_member(f[0]['ty'][1], value['v'])
+    return None
+
+
 def monitor(c):
     import pane
     from pane.errors import ConvertError
@@ -115,6 +138,10 @@ def monitor(c):
     if c.fd_obs is None:
         return out
     head = term_head(c.term)
+    want = literal_expectation(c.term, c.value)
+    if want is not None and c.fd_obs[0] in ('ok', 'error') and (c.fd_obs[0] == 'ok') != want:
+        out.append((f'C01:{head}:literal-membership', f'from_data({c.value!r}, {c.built.py!r}) is {"accepted" if c.fd_obs[0] == "ok" else "refused"}; '
+                    f'a Literal is matched exactly by a listed value: an equal value of the same type, so it must be {"accepted" if want else "refused"}', None))
     if c.fd_obs[0] == 'escape':
         # "in every other case it raises ConvertError": anything else leaving from_data is neither verdict
         e = c.fd_obs[1]
@@ -168,7 +195,9 @@ def run(ctx, out):
                 'accept/reject itself is decided against the Coq model by corr_convert. Non-trivial = non-leaf type.')
     import gen
     convprop.run(ctx, out, PROP, monitor, twins=True, cfg={'weights': {'class': 2.0, 'std': 0.8}},
-                 extra_cases=lambda rng: convprop.cases_from_pairs(gen.std_kind_cases(rng), rng, 'library-types'))
+                 extra_cases=lambda rng: (convprop.cases_from_pairs(gen.std_kind_cases(rng), rng, 'library-types')
+                                          + convprop.cases_from_pairs(gen.literal_boundary_cases(rng), rng, 'literal-boundaries')
+                                          + convprop.cases_from_pairs(gen.degenerate_class_cases(rng), rng, 'degenerate-classes')))
 
 
 def replay(rep, out):
